@@ -496,6 +496,195 @@ Section Denote.
   Proof. apply render_lacks. now right. Qed.
 End Denote.
 
+(* ================= the intents build makes are well-formed ================= *)
+Lemma existsb_rev {A} (p : A -> bool) l : existsb p (rev l) = existsb p l.
+Proof.
+  induction l as [|x l IH]; [reflexivity|]. cbn [rev existsb]. rewrite existsb_app, IH. cbn [existsb].
+  rewrite orb_false_r. apply orb_comm.
+Qed.
+
+Lemma space_free_rev l : space_free (rev l) = space_free l.
+Proof. unfold space_free. now rewrite existsb_rev. Qed.
+
+Lemma space_free_app a b : space_free (a ++ b) = space_free a && space_free b.
+Proof. unfold space_free. now rewrite existsb_app, negb_orb. Qed.
+
+Lemma space_free_skipn n l : space_free l = true -> space_free (skipn n l) = true.
+Proof.
+  intros H. rewrite <- (firstn_skipn n l) in H. rewrite space_free_app in H. now apply andb_true_iff in H as [_ H].
+Qed.
+
+Lemma fields_aux_words s : forall cur, space_free cur = true -> forallb word_ok (fields_aux s cur) = true.
+Proof.
+  assert (Hrev : forall c l, space_free (c :: l) = true -> word_ok (rev (c :: l)) = true).
+  { intros c l H. unfold word_ok. rewrite space_free_rev, H. cbn [rev]. destruct (rev l); reflexivity. }
+  induction s as [|c s IH]; intros cur Hc; cbn [fields_aux].
+  - destruct cur as [|x cur]; [reflexivity|]. cbn [forallb]. now rewrite Hrev.
+  - destruct (go_space c) eqn:E.
+    + destruct cur as [|x cur]; [now apply IH|]. cbn [forallb]. rewrite Hrev by exact Hc. now apply IH.
+    + apply IH. unfold space_free in *. cbn [existsb]. rewrite E. exact Hc.
+Qed.
+
+Lemma fields_words s : forallb word_ok (fields s) = true.
+Proof. now apply fields_aux_words. Qed.
+
+Lemma split_byte_space_free s c : space_free s = true -> forallb space_free (split_byte s c) = true.
+Proof.
+  induction s as [|x s IH]; intros H; [reflexivity|]. cbn [split_byte].
+  assert (Hx : go_space x = false /\ space_free s = true).
+  { unfold space_free in *. cbn [existsb] in H. rewrite negb_orb in H. apply andb_true_iff in H as [H1 H2].
+    now apply negb_true_iff in H1. }
+  destruct Hx as [Hx Hs]. specialize (IH Hs).
+  destruct (x =? c); [cbn [forallb]; now rewrite IH|].
+  destruct (split_byte s c) as [|w ws]; [cbn [forallb]; rewrite andb_true_r; unfold space_free; cbn [existsb]; now rewrite Hx|].
+  cbn [forallb] in *. apply andb_true_iff in IH as [H1 H2].
+  rewrite H2, andb_true_r. unfold space_free in *. cbn [existsb]. now rewrite Hx.
+Qed.
+
+Lemma drop_while_head (p : N -> bool) l : match drop_while p l with [] => True | c :: _ => p c = false end.
+Proof. induction l as [|x l IH]; cbn [drop_while]; auto. destruct (p x) eqn:E; auto. Qed.
+
+Lemma drop_while_suffix (p : N -> bool) l : exists x, l = x ++ drop_while p l.
+Proof.
+  induction l as [|c l (x & IH)]; cbn [drop_while]; [now exists []|].
+  destruct (p c); [exists (c :: x); cbn [app]; now rewrite <- IH | now exists []].
+Qed.
+
+Lemma trim_space_idem s : trim_space (trim_space s) = trim_space s.
+Proof.
+  set (a := drop_while go_space s). set (b := drop_while go_space (rev a)).
+  assert (Et : trim_space s = rev b) by reflexivity. rewrite Et.
+  pose proof (drop_while_head go_space s) as Ha. fold a in Ha.
+  pose proof (drop_while_head go_space (rev a)) as Hb. fold b in Hb.
+  destruct (drop_while_suffix go_space (rev a)) as (x & Hx). fold b in Hx.
+  destruct b as [|c b']; [reflexivity|].
+  apply (f_equal (@rev N)) in Hx. rewrite rev_involutive, rev_app_distr in Hx.
+  apply trim_space_id.
+  - destruct (rev (c :: b')) as [|h t'] eqn:E.
+    + apply (f_equal (@rev N)) in E. rewrite rev_involutive in E. discriminate.
+    + rewrite Hx in Ha. cbn [app] in Ha. now rewrite Ha.
+  - unfold ends_ns. rewrite rev_involutive. now rewrite Hb.
+Qed.
+
+Lemma intents_wf env prefix g i : In i (intents env prefix g) -> intent_wf i = true.
+Proof.
+  unfold intents. intros Hi. apply in_flat_map in Hi as (tag & _ & Hi). unfold intent_of_tag in Hi.
+  destruct (parse_url_prefix_tag env prefix tag) as [[r o]|]; [|destruct Hi].
+  set (addr := reg_addr g) in *.
+  assert (Inv : forall os st, forallb word_ok os = true ->
+            space_free (snd (fst st)) = true /\ forallb word_ok (snd st) = true ->
+            let st' := fold_left (opt_step addr) os st in
+            space_free (snd (fst st')) = true /\ forallb word_ok (snd st') = true).
+  { induction os as [|o1 os IH]; intros st Hos Hst; [exact Hst|]. cbn [fold_left].
+    cbn [forallb] in Hos. apply andb_true_iff in Hos as [Ho1 Hos]. apply IH; [exact Hos|].
+    destruct st as [[dst w] ro]. cbn [fst snd] in Hst. destruct Hst as [Hw Hro].
+    pose proof Ho1 as Ho1'. apply andb_true_iff in Ho1' as [_ Hsf].
+    unfold opt_step.
+    repeat (match goal with |- context [if ?b then _ else _] => destruct b end; cbn [fst snd]; auto).
+    - split; [now apply space_free_skipn | exact Hro].
+    - pose proof (split_byte_space_free _ 44 (space_free_skipn (length s_redirect_eq) _ Hsf)) as Hsp.
+      destruct (split_byte _ 44) as [|code [|url [|? ?]]]; cbn [fst snd]; auto.
+      split; [exact Hw|]. rewrite forallb_app, Hro. cbn [forallb]. rewrite andb_true_r.
+      cbn [forallb] in Hsp. apply andb_true_iff in Hsp as [Hcode _].
+      unfold word_ok. rewrite space_free_app, Hcode. reflexivity.
+    - split; [exact Hw|]. rewrite forallb_app, Hro. cbn [forallb]. now rewrite Ho1. }
+  specialize (Inv (fields o) (s_http ++ addr ++ [47], [], []) (fields_words o) (conj eq_refl eq_refl)).
+  cbn zeta in Inv. destruct (fold_left (opt_step addr) (fields o) _) as [[dst w] ro]. cbn [fst snd] in Inv.
+  destruct Hi as [<-|[]]. unfold intent_wf. cbn [i_weight i_opts i_tags]. destruct Inv as [-> ->]. cbn [andb].
+  apply forallb_forall. intros t Ht. unfold svc_tags in Ht. apply filter_In in Ht as [Ht _].
+  apply in_map_iff in Ht as (raw & <- & _). apply beq_eq. apply trim_space_idem.
+Qed.
+
+(* ================= what the options of a routing tag mean ================= *)
+(* An independent reading of build's option loop: the destination is set by the LAST option among
+   proto=tcp|https|grpc|grpcs and well-formed redirect=<code>,<url> (default http://addr/); the
+   weight is the literal of the LAST weight= option; the options passed on are, in order, all the
+   others, a well-formed redirect as redirect=<code>, a malformed redirect not at all. *)
+Definition redirect_parts (o : str) : option (str * str) :=
+  if has_prefix o s_redirect_eq then
+    match split_byte (skipn (length s_redirect_eq) o) 44 with [code; url] => Some (code, url) | _ => None end
+  else None.
+Definition known_proto (o : str) : option str :=
+  if beq o (bs "proto=tcp") then Some (bs "tcp://")
+  else if beq o (bs "proto=https") then Some (bs "https://")
+  else if beq o (bs "proto=grpcs") then Some (bs "grpcs://")
+  else if beq o (bs "proto=grpc") then Some (bs "grpc://") else None.
+Definition is_weight_opt (o : str) : bool :=
+  match known_proto o with Some _ => false | None => has_prefix o s_weight_eq end.
+Definition dst_of_opt (addr o : str) : option str :=
+  match known_proto o with
+  | Some scheme => Some (scheme ++ addr)
+  | None => if has_prefix o s_weight_eq then None
+            else match redirect_parts o with Some (_, url) => Some url | None => None end
+  end.
+Definition kept_opt (o : str) : list str :=
+  match known_proto o with
+  | Some _ => []
+  | None => if has_prefix o s_weight_eq then []
+            else if has_prefix o s_redirect_eq
+                 then match redirect_parts o with Some (code, _) => [s_redirect_eq ++ code] | None => [] end
+                 else [o]
+  end.
+Fixpoint last_some {A} (f : str -> option A) (os : list str) : option A :=
+  match os with
+  | [] => None
+  | o :: os' => match last_some f os' with Some x => Some x | None => f o end
+  end.
+
+Definition dst_spec (addr : str) (os : list str) : str :=
+  match last_some (dst_of_opt addr) os with Some d => d | None => s_http ++ addr ++ [47] end.
+Definition weight_spec (os : list str) : str :=
+  match last_some (fun o => if is_weight_opt o then Some (skipn (length s_weight_eq) o) else None) os with
+  | Some w => w | None => [] end.
+Definition opts_spec (os : list str) : list str := flat_map kept_opt os.
+
+Lemma opt_loop_general addr os : forall d w ro,
+  fold_left (opt_step addr) os (d, w, ro)
+  = (match last_some (dst_of_opt addr) os with Some x => x | None => d end,
+     match last_some (fun o => if is_weight_opt o then Some (skipn (length s_weight_eq) o) else None) os with
+     | Some x => x | None => w end,
+     ro ++ flat_map kept_opt os).
+Proof.
+  induction os as [|o os IH]; intros d w ro; cbn [fold_left last_some flat_map].
+  - now rewrite app_nil_r.
+  - unfold opt_step at 2. unfold dst_of_opt at 2, is_weight_opt at 2, kept_opt at 1, known_proto, redirect_parts.
+    destruct (beq o (bs "proto=tcp")); [rewrite IH; destruct (last_some _ os), (last_some _ os); reflexivity|].
+    destruct (beq o (bs "proto=https")); [rewrite IH; destruct (last_some _ os), (last_some _ os); reflexivity|].
+    destruct (beq o (bs "proto=grpcs")); [rewrite IH; destruct (last_some _ os), (last_some _ os); reflexivity|].
+    destruct (beq o (bs "proto=grpc")); [rewrite IH; destruct (last_some _ os), (last_some _ os); reflexivity|].
+    destruct (has_prefix o s_weight_eq); [rewrite IH; destruct (last_some _ os), (last_some _ os); reflexivity|].
+    destruct (has_prefix o s_redirect_eq).
+    + destruct (split_byte _ 44) as [|code [|url [|? ?]]]; rewrite IH; cbn [app];
+        rewrite <- ?app_assoc; destruct (last_some _ os), (last_some _ os); reflexivity.
+    + rewrite IH. rewrite <- app_assoc. destruct (last_some _ os), (last_some _ os); reflexivity.
+Qed.
+
+(* the destination, weight and options of every intent build makes are the declarative reading of
+   the option string of its routing tag *)
+Theorem intent_of_tag_meaning env prefix g tag i : In i (intent_of_tag env prefix g tag) ->
+  exists route opts, parse_url_prefix_tag env prefix tag = Some (route, opts)
+    /\ i_svc i = g_name g /\ i_route i = route /\ i_tags i = svc_tags prefix g
+    /\ i_dst i = dst_spec (reg_addr g) (fields opts)
+    /\ i_weight i = weight_spec (fields opts)
+    /\ i_opts i = opts_spec (fields opts).
+Proof.
+  unfold intent_of_tag. destruct (parse_url_prefix_tag env prefix tag) as [[route opts]|]; [|intros []].
+  rewrite opt_loop_general. intros [<-|[]]. exists route, opts. cbn [i_svc i_route i_tags i_dst i_weight i_opts app].
+  repeat split; reflexivity.
+Qed.
+
+(* examples of the reading: the last proto= wins, a later redirect overrides it, the last weight=
+   wins, unknown proto= values and other options pass through in order, a malformed redirect vanishes *)
+Example opts_meaning_examples :
+  let addr := bs "10.0.0.1:80" in
+  dst_spec addr [bs "proto=tcp"; bs "strip=/x"; bs "proto=https"] = bs "https://10.0.0.1:80"
+  /\ dst_spec addr [bs "proto=https"; bs "redirect=301,http://x.com/"; bs "weight=1"] = bs "http://x.com/"
+  /\ dst_spec addr [bs "redirect=301"; bs "proto=http"] = bs "http://10.0.0.1:80/"
+  /\ weight_spec [bs "weight=0.2"; bs "proto=tcp"; bs "weight=0.3"] = bs "0.3"
+  /\ opts_spec [bs "proto=http"; bs "weight=1"; bs "redirect=301,http://x.com/"; bs "redirect=302"; bs "strip=/x"; bs "proto=tcp"]
+     = [bs "proto=http"; bs "redirect=301"; bs "strip=/x"].
+Proof. cbn zeta. repeat split; vm_compute; reflexivity. Qed.
+
 (* ================= the table built from expressible registrations ================= *)
 Lemma in_insert_desc x r rs : In x (insert_desc r rs) <-> x = r \/ In x rs.
 Proof.
@@ -981,8 +1170,9 @@ Section TableDomain.
         rewrite forallb_forall in Htr.
         assert (Hnc : no_comma t = true).
         { unfold no_comma. apply negb_true_iff. destruct (existsb (N.eqb 44) t) eqn:E44; auto.
-          unfold comma_in_tag in Ec. enough (existsb (fun t => existsb (N.eqb 44) t) (i_tags i) = true) by congruence.
-          apply existsb_exists. now exists t. }
+          unfold comma_in_tag in Ec. exfalso.
+          assert (X : existsb (fun t => existsb (N.eqb 44) t) (i_tags i) = true) by (apply existsb_exists; now exists t).
+          rewrite X in Ec. discriminate. }
         assert (Hl : forall c, lacks c (render_intent i) = true -> lacks c t = true).
         { intros c Hc0. rewrite render_is_line in Hc0. unfold line_of in Hc0.
           destruct (i_tags i) as [|t0 ts0] eqn:Et; [destruct Hin|]. rewrite <- Et in *.
@@ -990,21 +1180,34 @@ Section TableDomain.
           { rewrite Et in Hc0 at 1. cbn [topt Tq] in Hc0. rewrite <- Et in Hc0.
             change (34 :: join (i_tags i) [44] ++ [34]) with ([34] ++ join (i_tags i) [44] ++ [34]) in Hc0.
             change (32 :: i_route i ++ 32 :: i_dst i ++ ?x) with ([32] ++ i_route i ++ [32] ++ i_dst i ++ x) in Hc0.
-            rewrite !lacks_app in Hc0. repeat (apply andb_true_iff in Hc0 as [? Hc0]).
-            apply andb_true_iff in H7 as [_ H7]. apply andb_true_iff in H7 as [H7 _]. exact H7. }
+            rewrite !lacks_app in Hc0.
+            repeat match goal with H : _ && _ = true |- _ => apply andb_true_iff in H as [? ?] end.
+            assumption. }
           pose proof (lacks_join_inv c [44] _ Hj) as Q2. rewrite forallb_forall in Q2. now apply Q2. }
-        rewrite (Q t Hin), Hnc. change (no_quote t) with (lacks 34 t). rewrite (Q t Hin).
-        change (no_nl t) with (lacks 10 t). change (no_cr t) with (lacks 13 t).
-        rewrite (Hl 10 Hnl), (Hl 13 Hcr), (Htr t Hin). reflexivity. }
-      destruct (i_tags i) as [|t [|t2 r]] eqn:Et; [reflexivity| |exact Hall].
+        pose proof (Q t Hin) as Q34. pose proof (Hl 10 Hnl) as Q10. pose proof (Hl 13 Hcr) as Q13.
+        change (lacks 34 t) with (no_quote t) in Q34. change (lacks 10 t) with (no_nl t) in Q10.
+        change (lacks 13 t) with (no_cr t) in Q13.
+        rewrite Q34, Hnc, Q10, Q13, (Htr t Hin). reflexivity. }
+      destruct (i_tags i) as [|t [|t2 r]] eqn:Et; [reflexivity| |destruct t; exact Hall].
       destruct t; [unfold sole_empty_tag in Ee; rewrite Et in Ee; discriminate | exact Hall]. }
     (* options *)
     assert (Ho : opts_ok (i_opts i) = true).
     { unfold opts_ok. apply forallb_forall. intros o Hin.
       pose proof (lacks_join_inv 34 sp _ Hq2) as Q. rewrite forallb_forall in Q, Hwo.
-      rewrite (Hwo o Hin). change (no_quote o) with (lacks 34 o). now rewrite (Q o Hin). }
+      pose proof (Q o Hin) as Q34. change (lacks 34 o) with (no_quote o) in Q34. now rewrite (Hwo o Hin), Q34. }
     unfold ex, expr, intent_expressible. rewrite Hs, Hr, Hg, Hh, Hdst, Hw, Ht, Ho.
     destruct Hc as [u ->]. reflexivity.
+  Qed.
+
+  (* for catalog entries: whatever build emits comes from an expressible routing tag, or lies in
+     the syntactic region of F-C14-2, or has a vertical tab in a word *)
+  Theorem emitted_characterised env prefix g c : In c (build' env prefix g) ->
+    exists i, In i (intents env prefix g) /\ c = render_intent i
+      /\ (ex i = true \/ comma_in_tag i = true \/ sole_empty_tag i = true \/ vtab_in_word i = true).
+  Proof.
+    unfold build. intros H. apply in_map_iff in H as (i & <- & Hi). apply filter_In in Hi as [Hi Hv].
+    exists i. split; [exact Hi|]. split; [reflexivity|].
+    exact (validated_characterised i (intents_wf env prefix g i Hi) Hv).
   Qed.
 
   (* (1) for an expressible catalog entry: every routing tag yields a command (none is dropped),
@@ -1302,4 +1505,15 @@ Theorem control_byte_tag_altered_unrepaired_refuted :
   svc_tags pfx reg_ctrl = [[97; 1; 98]]
   /\ ex_parsed_tags_unrepaired reg_ctrl = Ok [[bs "a\x01b"]]
   /\ existsb (F_C14_altering_unrepaired all_print pweight_dec idcanon anyglob) (ex_intents reg_ctrl) = true.
+Proof. repeat split; vm_compute; reflexivity. Qed.
+
+(* the route of a routing tag, on examples: host lower-cased and $x / ${x} expanded in host/path
+   form; host-only, host:port and :port forms returned as written; only the byte 32 ends the route *)
+Example route_meaning_examples :
+  parse_url_prefix_tag env_dc pfx (bs " urlprefix-$DC.Foo.com/A/${DC}  strip=/A  proto=tcp ")
+    = Some (bs "dc1.foo.com/A/dc1", bs " strip=/A  proto=tcp")
+  /\ parse_url_prefix_tag env_dc pfx (bs "urlprefix-Foo.com:80") = Some (bs "Foo.com:80", [])
+  /\ parse_url_prefix_tag env_dc pfx (bs "urlprefix-:8080 proto=tcp") = Some (bs ":8080", bs "proto=tcp")
+  /\ parse_url_prefix_tag None pfx (bs "urlprefix-$DC.x/${DC}") = Some (bs ".x/", [])
+  /\ parse_url_prefix_tag env_dc pfx (bs "other-/x") = None.
 Proof. repeat split; vm_compute; reflexivity. Qed.
